@@ -30,7 +30,7 @@ MIN_NONTRIVIAL = {"quick": 1200, "thorough": 100000}
 SALTS = [None, "", "s1", "é", "é", "日本語", "it's", 'q"q', "\\", "\x00", "🙂", "a b\tc"]
 FIXED_VALUES = [
     "", " ", "a", "0", "1", "-1", "1.0", "True", "None", "nan", "josé", "josé", "日本語", "\U0001f600", "‮abc",
-    "\x00", "a\x00b", "it's", 'say "hi"', "back\\slash", "\\n", "\n", "\r\n", "\t", "a" * 100000, "é" * 50000,
+    "7", "7.0", "2.5", "1", "1.0", "\x00", "a\x00b", "it's", 'say "hi"', "back\\slash", "\\n", "\n", "\r\n", "\t", "a" * 100000, "é" * 50000,
     "﻿", " ", "ß", "İ", "ǅ", "ﬁ", "\U0010ffff", "\x7f", "\x80", "'; DROP TABLE users; --", "%s%s%s", "{0}",
     0, 1, -1, 7, 2**31 - 1, 2**31, 2**63, 2**64, -(2**63), 10**30, 10**400, -(10**400), 10**4000,
     0.0, -0.0, 1.0, 0.5, 1e22, 1e-7, 5e-324, 1.7976931348623157e308, float("inf"), float("-inf"), float("nan"), 0.1 + 0.2,
@@ -48,10 +48,16 @@ def texts(salt):
         "two": f'def t2 {{ {s}splitters: uid, region return "a" weighted 1, "b" weighted 3 }}',
         "cond": f'def t3 {{ {s}splitters: uid if tier == 1 {{ return "x" weighted 1, "y" weighted 1 }} else '
                 f'{{ return "z" weighted 1, "w" weighted 1 }} }}',
+        # the splitter itself is compared with numbers / strings: whatever it is compared with, it is hashed as passed
+        "shared-num": f'def t4 {{ {s}splitters: uid if uid == 2.5 or uid in (1, 7.0) {{ return "x" weighted 1, "y" weighted 1 }} else '
+                      f'{{ return "z" weighted 1, "w" weighted 1 }} }}',
+        "shared-str": f'def t5 {{ {s}splitters: uid if uid != "7" and uid not in ("1.0", "None") {{ return "x" weighted 1, "y" weighted 1 }} '
+                      f'else {{ return "z" weighted 1, "w" weighted 1 }} }}',
     }
 
 
-LABELS = {"one": {"a", "b", "c"}, "two": {"a", "b"}, "cond": {"x", "y", "z", "w"}}
+LABELS = {"one": {"a", "b", "c"}, "two": {"a", "b"}, "cond": {"x", "y", "z", "w"}, "shared-num": {"x", "y", "z", "w"},
+          "shared-str": {"x", "y", "z", "w"}}
 
 
 def nontrivial_value(v):
@@ -138,11 +144,15 @@ def run(ctx):
                 ctx.violation("not-total", dict(text=text, value=v if len(sv) < 300 else sv[:100] + "...", value_type=type(v).__name__,
                                                 salt=salt, got=out), mechanism=mech)
                 continue
-            # v and str(v) print identically: same bucket
+            # v and str(v) print identically: same bucket (when the splitter is also a routing field the two may be routed
+            # to different return statements - x/y vs z/w - but both statements split 1:1, so the *index* is shared)
             env2 = dict(env, uid=sv)
             out2 = im.call(ev, env2)
             ctx.evaluated()
-            if out2 != out:
+            same_bucket = out2 == out
+            if shape.startswith("shared") and out2[0] == "ok" and out[0] == "ok":
+                same_bucket = "xz".find(out[1]) >= 0 and "xz".find(out2[1]) >= 0 or "yw".find(out[1]) >= 0 and "yw".find(out2[1]) >= 0
+            if not same_bucket:
                 ctx.violation("same-print-different-bucket", dict(text=text, value=v, as_str=sv[:200], got=out, got_str=out2),
                               mechanism="C15/same-print-different-bucket")
             else:
